@@ -775,6 +775,22 @@ func checkC20Restore(p *Prog, r *Report, ru *Rule) {
 			makeRaw = c
 		}
 	})
+	/* The cleanup function is what New hands its caller on success, however
+	it is made (sync.OnceFunc, a literal around a sync.Once, ...). */
+	if nil == cleanupLocal {
+		eachInstr(onew, func(i ssa.Instruction) {
+			ret, ok := i.(*ssa.Return)
+			if !ok || 3 != len(ret.Results) || !isNilConst(retVal(ret, 2)) {
+				return
+			}
+			v := stripConv(resolveCell(stripConv(retVal(ret, 1), false)), false)
+			if _, isFn := v.Type().Underlying().(*types.Signature); isFn {
+				if _, isInstr := v.(ssa.Instruction); isInstr {
+					cleanupLocal = v
+				}
+			}
+		})
+	}
 	if nil == open || nil == cleanupLocal || nil == makeRaw {
 		ru.Unproven(fnName(onew)+":anchors", onew.Pos(), "TTY open, cleanup function or MakeRaw not found in opshell.New")
 		return
@@ -786,7 +802,7 @@ func checkC20Restore(p *Prog, r *Report, ru *Rule) {
 		if !ok || 3 != len(ret.Results) || !isNilConst(retVal(ret, 2)) {
 			return
 		}
-		if resolveCell(retVal(ret, 1)) == cleanupLocal {
+		if stripConv(resolveCell(stripConv(retVal(ret, 1), false)), false) == cleanupLocal {
 			ru.OK(fnName(onew)+":returns-cleanup", posOf(ret), "the caller receives the cleanup function")
 		} else {
 			ru.Bad(fnName(onew)+":returns-cleanup", posOf(ret), "on success New does not return its cleanup function")
@@ -795,7 +811,7 @@ func checkC20Restore(p *Prog, r *Report, ru *Rule) {
 	/* Error returns after the cleanup exists call it. */
 	miss := reachQ{From: locOf(cleanupLocal.(ssa.Instruction)), Block: func(i ssa.Instruction) bool {
 		c := callCommon(i)
-		return nil != c && c.Value == cleanupLocal
+		return nil != c && stripConv(resolveCell(c.Value), false) == cleanupLocal
 	}, Target: func(i ssa.Instruction) bool {
 		ret, ok := i.(*ssa.Return)
 		return ok && 3 == len(ret.Results) && !isNilConst(retVal(ret, 2))
